@@ -540,6 +540,20 @@ def run_tree_history(case, ctx):
             # time step from the current masses and G: bodies should mostly stay inside their cells
             Mnow = sum(sim.particles[i].m for i in range(n))
             sim.dt = case["dt_frac"] * (math.sqrt(min(L3) ** 3 / (sim.G * Mnow)) if Mnow > 0 else 1.0)
+            # a very close pair would be kicked across many boxes in one leapfrog step (the periodic wrap then loops
+            # once per box length: astronomically long for coordinates of 1e14 box sizes): outside "bodies stay in
+            # their cells"; counted and skipped
+            ps = [(sim.particles[i].x, sim.particles[i].y, sim.particles[i].z, sim.particles[i].m) for i in range(n)]
+            soft2 = sim.softening ** 2
+            kick = 0.0
+            for i in range(n):
+                for j in range(i + 1, n):
+                    d2 = (ps[i][0] - ps[j][0]) ** 2 + (ps[i][1] - ps[j][1]) ** 2 + (ps[i][2] - ps[j][2]) ** 2 + soft2
+                    if d2 > 0:
+                        kick = max(kick, abs(sim.G) * max(ps[i][3], ps[j][3]) / d2 * sim.dt * sim.dt)
+            if kick > 0.05 * min(L3):
+                ctx.skip("a close pair would be kicked across the box in one step")
+                return
             try:
                 sim.steps(o[1])
             except RuntimeError:
